@@ -192,6 +192,23 @@ func (rt *RoutingTable) AddRoute(entry RoutingTableEntry) (added bool, err error
 
 	// We have a new route for a known destination.
 
+	// Gossip routes are limited per prefix. New destinations are checked in
+	// addNewDestination; a destination that is already known through a route
+	// exempt from that limit (eg. a direct peer) must not lift the prefix
+	// above what the limit allows either.
+	if entry.Source == RouteSourceGossip && end-start < 3 {
+		pStart, pEnd := rt.getPrefixSection(entry.RoutingPrefix)
+		var gossipInPrefix int
+		for i := pStart; i < pEnd; i++ {
+			if rt.entries[i].Source == RouteSourceGossip {
+				gossipInPrefix++
+			}
+		}
+		if gossipInPrefix >= 3*(rp.EntriesPerPrefix*2+1) {
+			return false, nil
+		}
+	}
+
 	// If we don't have 3 routes to this destination yet, add it.
 	if end-start < 3 || entry.Source == RouteSourcePeer {
 		// Get insert index.
